@@ -255,6 +255,9 @@ func (x *Exec) runHarness(fn *ssa.Function) (end pathEnd) {
 			// a Go panic escaped the harness: a violation of "never panics" with a model of the path
 			res, m := x.check(nil, x.ctx.Vars)
 			if res == smt.Sat {
+				if m == nil {
+					m = map[string]uint64{} // a path without symbolic inputs
+				}
 				m = x.refineCRC(nil, m)
 			}
 			if res == smt.Sat && m != nil {
